@@ -33,6 +33,7 @@ import itertools
 import json
 import os
 import re
+import time
 
 from harness.core import MachineryError
 
@@ -1012,6 +1013,7 @@ def replay_sessions(ctx, tables, sshapes, sessions, what, leg='S2C'):
             fresh[c, n] = session_result(Session(*ledger(c)), sshapes[n - 1])
         return fresh[c, n]
     nsess = nstmt = 0
+    t0 = time.time()
     for se in sessions:
         conns = {}
         texts = [text_of(sshapes[st['s'] - 1]['short']) for st in se['steps']]
@@ -1042,6 +1044,8 @@ def replay_sessions(ctx, tables, sshapes, sessions, what, leg='S2C'):
         if nsess == 200:
             ctx.sample({'leg': leg, 'session': texts, 'connections': [st['c'] for st in se['steps']]})
     ctx.leg(leg, **{what: nsess, what + '_statements': nstmt})
+    if hasattr(ctx, 'log'):
+        ctx.log('%s: %d sessions (%d statements) replayed in %.1fs' % (leg, nsess, nstmt, time.time() - t0))
     return nsess
 
 
@@ -1194,6 +1198,7 @@ def run(ctx):
                 first = [json.loads(x) for x in itertools.islice(f, 2)]
             ctx.sample({'leg': 'C2S', 'first_lines': [str(x)[:600] for x in first]})
             ctx.leg('C2S', statements_run=nrun, of_which_in_random_sessions=nsession)
+            ctx.log('C2S: %d statements recorded (%d of them in random sessions), %d trace lines' % (nrun, nsession, rec.lines))
             validate_trace(ctx, rec, path)
     finally:
         uninstall_parse_memo()
